@@ -447,7 +447,7 @@ RUST_FACET = {'minInclusive': 'min_inclusive', 'maxInclusive': 'max_inclusive', 
 
 def r_facets(tier='quick', as_attr=False, group='num'):
     """restricted simple type: every supported facet of one group (numeric / length) absent or one of several values (incl.
-    negative / i32 boundary), written as child elements or as attributes of xs:restriction; 0..2 enumeration values; plus
+    negative / i32 boundary), written as child elements or as attributes of xs:restriction; 0..3 enumeration values (one of them the empty string); plus
     unsupported facets. The other group's facets are fixed (present)."""
     numvals = [ABSENT, '0', '-5', '2147483647', '-2147483648'] if tier == 'thorough' else [ABSENT, '0', '-5', '2147483647']
     lenvals = [ABSENT, '0', '3', '255']
@@ -462,7 +462,7 @@ def r_facets(tier='quick', as_attr=False, group='num'):
         else:
             facets[f] = '7'
             sels[f] = '7'
-    nenum = Selector('n_enum', [0, 1, 2])
+    nenum = Selector('n_enum', [0, 1, 2, 3])
     base = Selector('base', ['xs:string', 'xs:int', 'xs:long'] if tier == 'thorough' else ['xs:string', 'xs:int'])
     st = ST('Code', base, dict(facets, pattern='[A-Z]+', whiteSpace='collapse', totalDigits='4'), facets_as_attr=as_attr)
     sch = Schema(NS1, [st, CT('Holder', Seq([El('code', 't:Code'), El('codes', 't:Code', '0', 'unbounded'), El('maybe', 't:Code', '0')]),
@@ -472,7 +472,8 @@ def r_facets(tier='quick', as_attr=False, group='num'):
     from xmltree import Opt as _Opt, E as _E
     restr = tree.children[0].children[-1]
     restr.children.append(_Opt(_E('xs:enumeration', {'value': 'A'}), nenum.var >= 1))
-    restr.children.append(_Opt(_E('xs:enumeration', {'value': 'b c'}), nenum.var >= 2))
+    restr.children.append(_Opt(_E('xs:enumeration', {'value': ''}), nenum.var >= 2))      # the empty string is a legal enumeration value
+    restr.children.append(_Opt(_E('xs:enumeration', {'value': 'b c'}), nenum.var >= 3))
     sc = Scenario('R-facets-%s-%s' % ('attr' if as_attr else 'child', group), {'a.xsd': tree}, 'a.xsd', [x for x in sels.values() if isinstance(x, Selector)] + [nenum, base])
     return sc, Info(schemas={'a.xsd': sch}, facets=sels, nenum=nenum, base=base, simple=[('a.xsd', st)], subjects=[])
 
